@@ -36,6 +36,22 @@ CHECKS = {
             'small scope n_word<=7 (thorough 10) exhaustively, boundary alphabet on the 1..52-bit grid; float and integer carriers.',
             'Trusted: integer comparison code in mc/props/c05.py:relation(); independent of mc/refmodel.quantize, so it also guards C01\'s oracle.',
             'DESIGN.md section 4 C05'),
+    'C04': (TECH_E2,
+            'No explored write or history reports flags/callbacks different from the reference conditions: every quarter-LSB input over 3x the '
+            'range on all formats n_word<=4 (thorough 6) x 10 modes with the callback multiset compared; all 84 element-class vectors of '
+            'length 1..3; boundary arrays on the 1..52-bit grid; BFS over histories (29 events: writes by 3 routes in 6 classes, raw writes '
+            'incl. fractional raw values, reset, 3 resizes, 4 config changes, deep copy) to depth 4 (thorough 6) with canonical-state dedup '
+            'and depth 2 (3) without, 9 derived results (x+y, x-y, y-x, x*y, x/y, x//y, x%y, sum, Fxp(x)) observed in every state.',
+            'Trusted: reference conditions from mc/refmodel.quantize. For resize/config change/copy only stickiness is asserted. Unary '
+            'operators and shifts are not claimed by the property and not judged.', 'DESIGN.md section 4 C04'),
+    'C20': (TECH_E2,
+            'No explored derivation chain yields objects that share config, status record, callback list or (outside index views) the value '
+            'buffer, statically (identity / np.shares_memory) and dynamically (13 mutations applied to every object of the heap on fresh '
+            'rebuilds, all others re-observed): 6 roots x 58 derivation routes, chains to depth 2 (thorough 3); x[i][j]=v must write through. '
+            'Input containers: 36 container kinds x 10 routes, deep snapshot and memory-sharing tests. Config validation: 16 attributes x '
+            'valid/invalid alphabets x 5 routes.',
+            'Trusted: the observation covers every field public operations read. copy() (explicit shallow copy) is not judged. A derivation '
+            'or container/route combination that raises is not a state (counted, not judged).', 'DESIGN.md section 4 C20'),
 }
 
 NOT_YET = {}
